@@ -105,4 +105,35 @@ theorem the_inherent_api :
     (surface.filter (fun r => r.tr == "fn")).map (·.fns) = [["fold"], ["for_each", "for_each_with_ids"]] := by
   decide +kernel
 
+/-- the fields of the type called `ty` (two types are called `BufferedIter`: both lists are returned) -/
+def fieldsOf (ty : String) : List (List String) := fnsOf "fields" ty
+
+/-- **the state of every iterator type is what the model has**: one position counter beside the source for the four known-size
+kinds (the vector also remembers its length), the cell of the wrapped iterator, the claimed length, two counters and one flag for
+the wrapper; a chunk puller holds its chunk size (the wrapper's: the reused buffer); a buffered iterator holds its puller and a
+reference; `Taken` a pointer, a length and a cursor; the views and adaptors a reference / the underlying iterator. No cached
+pointer, no second counter, no "missed" or "generation" field anywhere -/
+theorem the_state :
+    fieldsOf "AtomicCounter" = [["current: AtomicUsize"]] ∧
+    fieldsOf "ConIterOfSlice" = [["slice: &'a[T]", "counter: AtomicCounter"]] ∧
+    fieldsOf "ConIterOfRange" = [["range: Range<Idx>", "counter: AtomicCounter"]] ∧
+    fieldsOf "ConIterOfVec" = [["vec: UnsafeCell<ManuallyDrop<Vec<T>>>", "vec_len: usize", "counter: AtomicCounter"]] ∧
+    fieldsOf "ConIterOfArray" = [["array: UnsafeCell<ManuallyDrop<[T;N]>>", "counter: AtomicCounter"]] ∧
+    fieldsOf "ConIterOfIter" = [["iter: UnsafeCell<Iter>", "initial_len: Option<usize>", "reserved_counter: AtomicCounter",
+      "yielded_counter: AtomicCounter", "completed: AtomicBool"]] ∧
+    fieldsOf "CompleteOnUnwind" = [["completed: &'aAtomicBool", "armed: bool"]] ∧
+    fieldsOf "Taken" = [["ptr: *mutT", "len: usize", "idx: usize"]] ∧
+    fieldsOf "BufferedIter" = [["buffered_iter: B", "atomic_iter: &'aB::ConIter", "phantom: PhantomData<T>"],
+      ["values: &'amut[Option<T>]", "initial_len: usize", "current_idx: usize"]] ∧
+    fieldsOf "BufferIter" = [["values: Vec<Option<T>>", "phantom: PhantomData<Iter>"]] ∧
+    fieldsOf "BufferedSlice" = [["chunk_size: usize", "phantom: PhantomData<T>"]] ∧
+    fieldsOf "BufferedVec" = [["chunk_size: usize", "phantom: PhantomData<T>"]] ∧
+    fieldsOf "BufferedArray" = [["chunk_size: usize", "phantom: PhantomData<T>"]] ∧
+    fieldsOf "BufferedRange" = [["chunk_size: usize"]] ∧
+    fieldsOf "ClonedBufferedChunk" = [["chunk: C", "phantom: PhantomData<&'aT>"]] ∧
+    fieldsOf "CopiedBufferedChunk" = [["chunk: C", "phantom: PhantomData<&'aT>"]] ∧
+    fieldsOf "Cloned" = [["iter: A", "phantom: PhantomData<&'aT>"]] ∧ fieldsOf "Copied" = [["iter: A", "phantom: PhantomData<&'aT>"]] ∧
+    fieldsOf "ConIterValues" = [["con_iter: &'aC"]] ∧ fieldsOf "ConIterIdsAndValues" = [["con_iter: &'aC"]] := by
+  decide +kernel
+
 end Orx.GenThms.Surface
